@@ -1,7 +1,8 @@
 SPECIFICATION Spec
 CONSTANTS
-  MaxExt = 3
+  MaxExt = 4
   MaxOps = 4
   Mode = "own"
+  NP = 6
 CONSTRAINT Emit
 CHECK_DEADLOCK FALSE
